@@ -55,5 +55,23 @@ CHECKS["C03"] = (
     "Theorems: DDPG, TD3, SAC, DQN/Nature-DQN and double-DQN losses equal the mean squared regression of the online estimate onto y = r + (1-terminated) gamma bootstrap with the documented bootstrap, per sample, for every batch size >= 2 (TD3/SAC/double-Q forms also for N = 1; DDPG rejects N = 1 by its shape assertion); terminated transitions contribute no bootstrap; batch-order invariance; gradients w.r.t. target networks, target policies and bootstrap inputs are exactly zero (dual-number statement for TD3, DDPG, TD3+LAP, DQN, DDQN, SALE). TD3+LAP, TD7, MR.Q, PER-DDQN and the model-based encoder loss are tied by correspondence and by the documented-formula oracle (networks evaluated by the harness on the documented inputs).",
     "Trusts: Coq kernel + standard-library real-number axioms; extraction, OCaml glue, harness; network forward passes are oracles; JAX autodiff is trusted to differentiate the traced program (the dual model checks what is differentiated); float32 tolerance 2e-5. The encoder loss has no Coq model of its own: it is checked against the documented row-masked sums only.",
 )
+CHECKS["C19"] = (
+    "DESIGN.md §2 C19",
+    "Coq proof (saved image = every attribute except the rebuilt Batch type is a sufficient statistic: bisimulation up to Batch by "
+    "induction over every continuation, for every state of every buffer-class model; parameter-tree round trips and extensionality; "
+    "necessity lemmas with concrete witnesses) + crash-point enumeration on the real classes (pickle after every prefix; original, "
+    "reloaded object and extracted model driven through the same continuation; modules through pickle helper, Orbax and restore helper)",
+    "PARTIAL. Theorems about the model: load (save s) = s for every state satisfying the constructor's Batch invariant, load recomputes "
+    "Batch from the stored keys for every state, run (load (save s)) ops = run s ops (outputs, batch types and successor state) for "
+    "every state and every continuation of the ReplayBuffer, LAP, PrioritizedReplayBuffer, SubtrajectoryReplayBuffer(PER) and "
+    "MultiTaskReplayBuffer interpreters of BufferRun.v, crash-point form (save after any prefix, any continuation), pickle / Orbax / "
+    "restore_checkpoint tree round trips are the identity on paths and leaves and equal leaves give equal outputs; dropping insert_idx, "
+    "current_len, max_priority, priority, sampled_indices, episode_timesteps, mask_, active_buffers, sampled_task_idx, selected_task or "
+    "the Batch rebuild each breaks the theorem (witnesses). The enumeration compares all public state bitwise at every crash point.",
+    "Trusts: Coq kernel, extraction, OCaml glue, Python harness. No axioms. RUNTIME RESIDUE (not proved, only enumerated): that "
+    "pickle.dumps/loads, nnx.split/merge and Orbax save/restore reproduce every stored attribute / leaf bit for bit, that "
+    "__getstate__ keeps exactly the modelled entries, that reloaded arrays do not alias the original, device placement, and the "
+    "content of uninitialised np.empty storage (compared by shape and dtype only).",
+)
 _PENDING = "check not built yet in this revision (planned: Coq model + correspondence, see DESIGN.md §2)"
 NOT_APPLICABLE = {f"C{i:02d}": _PENDING for i in range(1, 21) if f"C{i:02d}" not in CHECKS}
